@@ -101,6 +101,51 @@ def worker(a):
     return 8, out, maxpos
 
 
+def pipeline_worker(a):
+    """forward-simulation chain on one constructed reflection: g_w --find_omega_general--> (omega, eta) --> G_t = Omega.g_w
+    --det_coor--> pixel  ==  det_coor2(2theta, eta) --detector_to_lab--> point on the ray from the grain along v(2theta, eta)"""
+    x, det = a
+    import importlib
+    import numpy as np
+    import c09
+    from xfab import detector
+    cs = x["cs"]
+    out = []
+    st, ct = cs["th"][1] / cs["th"][2], cs["th"][0] / cs["th"][2]
+    se, ce = cs["eta"][1] / cs["eta"][2], cs["eta"][0] / cs["eta"][2]
+    glab = np.array([-st * st, -2 * st * ct * se / 2, 2 * st * ct * ce / 2])
+    gw = (np.array(x["N"], dtype=float) / x["den"]).T.dot(glab)
+    twoth = 2 * math.atan2(cs["th"][1], cs["th"][0])
+    chi, wedge = c09.a2(cs["t1"]), c09.a2(cs["t2"])
+    om0, eta0 = c09.a2(cs["om"]), c09.a2(cs["eta"])
+    L, py, pz, y0, z0, pos, Rt, lam = det
+    v = np.array([math.cos(twoth), -math.sin(twoth) * se, math.sin(twoth) * ce])
+    for modname in ("tools", "laue"):
+        mod = importlib.import_module("xfab." + modname)
+        tag = "xfab.%s 2theta=%.3f deg eta=%.4f omega=%.4f chi=%.3f wedge=%.3f" % (modname, math.degrees(twoth), eta0, om0, chi, wedge)
+        try:
+            oms, etas = mod.find_omega_general(gw, twoth, chi, wedge)
+            k = [i for i in range(len(oms)) if abs(math.cos(oms[i]) - math.cos(om0)) < 1e-7 and abs(math.sin(oms[i]) - math.sin(om0)) < 1e-7]
+            if not k:
+                out.append("pipeline: the constructed omega is not among the solver's solutions (%s)" % tag)
+                continue
+            om, eta = float(oms[k[0]]), float(etas[k[0]])
+            gt = np.asarray(mod.form_omega_mat_general(om, chi, wedge)).dot(gw)
+            Gt = 4 * math.pi / lam * gt                     # |G| = 4 pi sin(theta)/lambda in the 2pi convention det_coor expects
+            p1 = np.array(detector.det_coor(Gt, math.cos(twoth), lam, L, py, pz, y0, z0, Rt, pos[0], pos[1], pos[2]), dtype=float)
+            p2 = np.array(detector.det_coor2(twoth, eta, L, py, pz, y0, z0, Rt, pos[0], pos[1], pos[2]), dtype=float)
+            scale = max(1.0, np.abs(p2).max())
+            if np.abs(p1 - p2).max() > 1e-7 * scale:
+                out.append("pipeline: det_coor(Omega.g) = %s and det_coor2(2theta, eta) = %s differ for the same reflection (%s)" % (p1.tolist(), p2.tolist(), tag))
+            lab = np.array(detector.detector_to_lab(p2[0], p2[1], L, py, pz, y0, z0, Rt), dtype=float)
+            w = lab - np.array(pos)
+            if np.abs(np.cross(w, v)).max() > 1e-7 * max(1.0, L) or w.dot(v) <= 0:
+                out.append("pipeline: the pixel mapped back to the laboratory is not on the ray from the grain along (2theta, eta) (%s)" % tag)
+        except Exception as ex:
+            out.append("pipeline: exception %r (%s)" % (ex, tag))
+    return 5, out
+
+
 def run(tier, seed):
     warnings.simplefilter("ignore")
     v = common.Verdict("C10", tier, seed)
@@ -138,13 +183,36 @@ def run(tier, seed):
         for o in out[:2]:
             v.violation(o, {"case": cs, "L": str(pars[0]), "py": str(pars[1]), "pz": str(pars[2]), "y0": str(pars[3]), "z0": str(pars[4]),
                             "pos0": [str(q) for q in pars[5]]})
+    # the forward-simulation chain: omega solver -> g-vector at that omega -> both pixel functions -> back to the laboratory
+    import c09
+    pc, _un = c09.make_cases(rng, "quick")
+    pc = [c for c in pc if c["solver"] == "general" and c["th"][1] * 1000 < c["th"][0] * 577]      # 2theta < 60 degrees (C10's range)
+    pc = rng.sample(pc, 120 if tier == "quick" else 2500)
+    common.write_data_module(wd, "OmegaCases", {"Cases": common.TlaSet(pc), "Unreach": common.TlaSet([]), "PSolvers": common.TlaSet([]),
+                                                "PTh": common.TlaSet([]), "PEta": common.TlaSet([]), "POm": common.TlaSet([]), "PTilt": common.TlaSet([])})
+    rp = common.run_tlc("Omega", "MC_Omega.cfg", wd, timeout=1200)
+    import numpy as np
+    ptodo = []
+    for x in rp.records:
+        if x["cs"]["kind"] != "reach" or x["tangent"] or x["cs"]["th"][2] > 200:
+            continue
+        rec = rng.choice(r.records)
+        Rt = np.array(rec["R"], dtype=float) / rec["rden"]
+        ptodo.append((x, (float(rng.choice([10, 137, 1000])), rng.choice([0.01, 0.05, 0.5]), rng.choice([0.01, 0.05, 0.5]),
+                          rng.uniform(-500, 3000), rng.uniform(-500, 3000), [rng.uniform(-2, 2) for _ in range(3)], Rt, rng.uniform(0.15, 0.7))))
+    for (x, det), (n, out) in zip(ptodo, common.pmap(pipeline_worker, ptodo)):
+        ncalls += n
+        v.case(("pipeline", repr(x["cs"])))
+        for o in out[:2]:
+            v.violation(o, {"case": x["cs"]})
     if v.violations:
         seen = {}
         for q in v.violations:
             seen.setdefault(q["what"].split("(")[0][:40], q)
         v.notes.append("%d violating observations collapsed to %d" % (len(v.violations), len(seen)))
         v.violations = list(seen.values())
-    cov = {"states": r.distinct, "transitions": r.generated, "traces_validated_against_impl": len(todo), "function_calls": ncalls,
+    cov = {"states": r.distinct + rp.distinct, "transitions": r.generated + rp.generated,
+           "traces_validated_against_impl": len(todo) + len(ptodo), "pipeline_chains": len(ptodo), "function_calls": ncalls,
            "max_grain_offset_mm": worst, "exhaustive": False,
            "rule": "case = (three-axis Pythagorean tilt <= 0.3 rad, 2theta in (0.57, 53) deg, eta) x seeded distance 10..1000, pixel sizes "
                    "0.01..0.5, beam centre, grain offset <= 2 mm (pixel rounded to 1/8)"}
